@@ -255,8 +255,16 @@ func evalC17Unit(c c17Unit, o *Obs) error {
 	if got := a.ToUnit(u); got != want {
 		return fmt.Errorf("Amount(%d).ToUnit(%d) = %v (%#x), correctly rounded quotient is %v (%#x)", c.A, c.U, got, math.Float64bits(got), want, math.Float64bits(want))
 	}
-	// printed text
+	// printed text (results are kept while further amounts are formatted: strings are values)
 	text := a.Format(u)
+	keep := strings.Clone(text)
+	for k := 1; k <= 3; k++ {
+		bchutil.Amount(c.A/int64(k+1) + int64(k)).Format(bchutil.AmountUnit(-12 + (c.U+12+k*5)%25))
+		bchutil.Amount(-c.A).Format(u)
+	}
+	if text != keep {
+		return fmt.Errorf("Amount(%d).Format(%d) returned %q, which reads %q after other amounts were formatted", c.A, c.U, keep, text)
+	}
 	label := " " + unitLabel(c.U)
 	if u.String() != unitLabel(c.U) {
 		return fmt.Errorf("AmountUnit(%d).String() = %q, want %q", c.U, u.String(), unitLabel(c.U))
@@ -445,6 +453,7 @@ func TestC17(t *testing.T) {
 		kC17Mono.Run(t, ev, perShard(pick(30000, 10000000)))
 		kC17Unit.Run(t, ev, perShard(pick(60000, 20000000)))
 		kC17Mul.Run(t, ev, perShard(pick(40000, 12000000)))
+		runConcurrent(kC17Unit, t, ev, perShard(pick(300, 30000)), 8)
 		ev.requireClasses("C17:new-nan-inf", "C17:new-non-integer-product", "C17:new-integer-product>=2^52", "C17:monotone",
 			"C17:unit=-12", "C17:unit=-9", "C17:unit=-8", "C17:unit=0", "C17:unit=6", "C17:unit=12", "C17:mulf64")
 	})
